@@ -225,6 +225,33 @@ def run(ctx):
     history_stream(ctx)
     interpreter_stream(ctx)
     precond_stream(ctx)
+    bigcost_stream(ctx)
+
+
+def bigcost_stream(ctx):
+    """cost dictionaries are arbitrary positive floats: huge, non-integer, not exactly summable ones (n**3 * 1.1 for
+    n ~ 10^4) are assigned like any others (oracle only: the model's costs are naturals)"""
+    rng = ctx.rng
+    for _ in range(ctx.budget(20, 200)):
+        w = rng.choice([2, 4, 6, 8])
+        k = rng.choice(gen.divisors(w))
+        colocate = rng.random() < 0.5
+        nl = rng.choice([2, 3, 6, 11])
+        work = {f'l{i}': {f: (rng.randrange(2000, 20000) ** 3) * rng.choice([1.1, 0.7, 1 / 3, 1.0]) for f in ('A', 'G')} for i in range(nl)}
+        case = {'w': w, 'k': k, 'colocate': colocate, 'work': work}
+        objs, callseqs = [], []
+        try:
+            for loc in range(w):
+                a, calls, _ = build(w, k, loc, colocate, work)
+                objs.append(a)
+                callseqs.append(calls)
+        except Exception as e:  # noqa: BLE001
+            ctx.fail(f'a legal cost dictionary with large float costs was rejected: {type(e).__name__}: {e}', case, 'rejected-valid')
+            continue
+        oracle(ctx, w, k, colocate, work, objs, callseqs)
+        ctx.evaluations += 1
+        ctx.case(('bigcost', w, k, colocate, nl), nontrivial=w > 1)
+        ctx.count('big-float-costs')
 
 
 def precond_stream(ctx):
